@@ -40,6 +40,27 @@ CLAIMED = {
         note='Trusted: CrossHair/z3 and its regex engine, glue G1-G3. int->float conversion uses the real-number model '
              '(rounding/overflow outside). bool-as-number and NaN bounds are unspecified and not judged.',
         ref='4 (C08)'),
+    'C18': dict(
+        text='Bounded proof by symbolic execution, two clauses only. Containment: every path string over {., /, a} up to '
+             'length 4/6 through output_to_relative_path, copy_to_path and the Swift writer with the file system replaced '
+             'by recording stubs: a path that an independent segment-stack resolver places outside the root is refused by '
+             'AssertionError before any makedirs/open/copy, accepted writes land inside, manifest mode touches nothing '
+             'and records the normalised relative path. Verbatim emission: emit/emit_raw/indent/block/placeholders with '
+             'symbolic text over { } % a space reach output_buffer_to_string byte for byte with the right indentation.',
+        note='Partial claim: manifest-vs-real-run fidelity for the built-in backends, emit_wrapped_text and '
+             'generate_multiline_list are outside. Trusted: glue G4 (CPython pure-Python normpath, cross-checked against '
+             'the C function in the self-test), G5 (pure-Python twin of str.format for symbolic templates), stubs for '
+             'os/open/shutil; cwd fixed to /cwd, root fixed to /out/root.',
+        ref='4 (C18)'),
+    'C19': dict(
+        text='Bounded proof by symbolic execution, expression-evaluation clause only: for a fixed list of expression '
+             'skeletons (<= 3/4 atoms, and/or/parentheses, =/!=, literals of every kind) parsed by the real parser, '
+             'FilterExpr*.eval on symbolic attribute values (None/bool/all ints/strings <= 3, each attribute present or '
+             'absent) agrees with an independent precedence-climbing evaluator.',
+        note='Partial claim: malformed expressions, -w/-b/-a pruning in cli.main and by-name table consistency are '
+             'outside (no symbolic value reaches them). Comparisons across kinds Python equates (True == 1) are '
+             'unspecified and not judged.',
+        ref='4 (C19)'),
 }
 
 NA = {
@@ -62,8 +83,6 @@ PENDING = {
     'C11': 'check under construction in this session (claimed in DESIGN.md section 4)',
     'C13': 'check under construction in this session (claimed in DESIGN.md section 4)',
     'C14': 'check under construction in this session (claimed in DESIGN.md section 4)',
-    'C18': 'check under construction in this session (claimed in DESIGN.md section 4)',
-    'C19': 'check under construction in this session (claimed in DESIGN.md section 4)',
 }
 
 
